@@ -2317,28 +2317,26 @@ impl<'a, F: FeatureProvider, V: VariationInfo> CompilationCtx<'a, F, V> {
 
 fn sequence_enumerator(sequence: &[GlyphOrClass]) -> Vec<Vec<GlyphId16>> {
     assert!(sequence.len() >= 2);
-    let split = sequence.split_first();
-    let mut result = Vec::new();
-    let (left, right) = split.unwrap();
-    sequence_enumerator_impl(Vec::new(), left, right, &mut result);
-    result
-}
-
-fn sequence_enumerator_impl(
-    prefix: Vec<GlyphId16>,
-    left: &GlyphOrClass,
-    right: &[GlyphOrClass],
-    acc: &mut Vec<Vec<GlyphId16>>,
-) {
-    for glyph in left.iter() {
-        let mut prefix = prefix.clone();
-        prefix.push(glyph);
-
-        match right.split_first() {
-            Some((head, tail)) => sequence_enumerator_impl(prefix, head, tail, acc),
-            None => acc.push(prefix),
+    // one position at a time, so that stack depth does not follow the length of the rule
+    let mut result = vec![Vec::with_capacity(sequence.len())];
+    for item in sequence {
+        let glyphs = item.iter().collect::<Vec<_>>();
+        if let [glyph] = glyphs.as_slice() {
+            result.iter_mut().for_each(|seq| seq.push(*glyph));
+            continue;
         }
+        let mut next = Vec::with_capacity(result.len() * glyphs.len());
+        for prefix in &result {
+            for glyph in &glyphs {
+                let mut seq = Vec::with_capacity(sequence.len());
+                seq.extend_from_slice(prefix);
+                seq.push(*glyph);
+                next.push(seq);
+            }
+        }
+        result = next;
     }
+    result
 }
 
 fn sort_feature_variations(
